@@ -28,6 +28,8 @@ SWEEP_TRUSTED = {
                                                              "n_jobs was at least 1 and at most 8 (job slots are only taken below MAX_JOBS)",
     "RF-IVL:vbi3_raw_decoder_sampling_point:points[local]": "nth_bit < n_points, which the slicer wrote through its out-parameter bounded by max_points = 512",
 }
+CLAUSE = CLAUSE + (" Block moves inside a row of predicted services stay inside the row; the sampling-point array is resized "
+                   "after new sampling parameters are installed, not before.")
 NOT_DECIDED = ("whether the search limit is arithmetically sufficient (8.8 fixed-point phase/step arithmetic, the low-pass slicer's "
                "16-sample window, reads of r + bpp at the last payload bit): a relational numeric fact, outside static analysis "
                "without a solver; reads of the image as such (values).")
@@ -49,6 +51,8 @@ def run(ctx, run):
     _params_before_handover(ctx, run)
     _cri_count_unscaled(ctx, run)
     _admission(ctx, run)
+    _pattern_row_moves(ctx, run)
+    _debug_after_geometry(ctx, run)
     from .. import sweep
     sweep.run(ctx, run, ["src/raw_decoder.c", "src/bit_slicer.c", "src/decoder.c", "src/sampling_par.c"], SWEEP_TRUSTED, 110, 1)
 
@@ -646,3 +650,83 @@ def _cri_count_unscaled(ctx, run):
                 else:
                     run.holds("RF-UNIT", key, "bs->%s is used unscaled" % e["member"], ex.loc(f, i), nontrivial=False)
     run.floor("reads of the CRI search limit in slicer functions", n, 3)
+
+
+def _pattern_row_moves(ctx, run):
+    """RF-IVL: decode_pattern() keeps, per scan line, a row of _VBI3_RAW_DECODER_MAX_WAYS
+    predicted services in rd->pattern; `pattern` points at the row of the line being decoded.
+    A block move inside the row (the rotation of a line predicted blank) stays inside it: start
+    index + number of elements <= row length for source and destination - one element more reads
+    (or writes) the first byte of the next line's row, and behind the last line the heap block."""
+    P = ctx.prog
+    f = P.need("decode_pattern", RD)
+    run.touch(f)
+    an = ctx.analysis(f)
+    # row length: the stride with which the row pointer is derived from rd->pattern
+    ways = P.enum_consts.get("_VBI3_RAW_DECODER_MAX_WAYS")
+    if ways is None:
+        consts = [ex.const(f, e["c"][1]) for e in f.exprs if e["k"] == "idx"
+                  and f.exprs[ex.skip(f, e["c"][0])].get("name") == "pattern" and ex.const(f, e["c"][1]) is not None]
+        ways = (max(consts) + 1) if consts else None
+    if not ways:
+        raise AnalysisBroken("decode_pattern: row length of rd->pattern not found")
+    n = 0
+    for bid, i in flow.all_events(f):
+        e = f.exprs[i]
+        if e["k"] != "call" or e.get("callee") not in ("memmove", "memcpy", "__builtin_memmove", "__builtin_memcpy") or len(e.get("c", [])) < 3:
+            continue
+
+        def row_index(arg):
+            a = f.exprs[ex.skip(f, arg)]
+            while a["k"] == "cast":
+                a = f.exprs[ex.skip(f, a["c"][0])]
+            if a["k"] == "un" and a["op"] == "&":
+                x = f.exprs[ex.skip(f, a["c"][0])]
+                if x["k"] == "idx" and f.exprs[ex.skip(f, x["c"][0])].get("name") == "pattern":
+                    return ex.const(f, x["c"][1])
+            if a["k"] == "ref" and a.get("name") == "pattern":
+                return 0
+            return None
+        di, si = row_index(e["c"][0]), row_index(e["c"][1])
+        if di is None and si is None:
+            continue
+        n += 1
+        st = an.state_before_expr(i)
+        sz = an.eval(st, e["c"][2]) if st is not None else (None, None)
+        key = "RF-IVL:decode_pattern:row-move@%d" % n
+        worst = max(x for x in (di, si) if x is not None)
+        if sz[1] is not None and worst + sz[1] <= ways:
+            run.holds("RF-IVL", key, "`%s`: at most %d elements from index %d of a row of %d" % (ex.pretty(f, i)[:50], sz[1], worst, ways),
+                      ex.loc(f, i))
+        else:
+            run.violation("RF-IVL", key, "`%s` moves %s elements starting at index %d of a row of %d predicted services: it reaches "
+                          "into the next scan line's row and, for the last line of the image, past the rd->pattern heap block"
+                          % (ex.pretty(f, i)[:50], sz[1] if sz[1] is not None else "an unbounded number of", worst, ways), ex.loc(f, i),
+                          witness={"size": list(sz), "row": ways})
+    run.floor("block moves inside a pattern row", n, 1)
+
+
+def _debug_after_geometry(ctx, run):
+    """RF-DEP: vbi3_raw_decoder_debug() (re)allocates the sampling-point array rd->sp_lines with
+    one entry per scan line of rd->sampling.  Where new sampling parameters are installed, it runs
+    after the store `rd->sampling = *sp`: sized from the old geometry, a decode of the larger
+    new image writes sampling points past the heap block."""
+    P = ctx.prog
+    f = P.need("vbi3_raw_decoder_set_sampling_par", RD)
+    run.touch(f)
+    pos = flow.elem_pos(f)
+    stores = [(b, i) for b, i in flow.all_events(f) for lhs, var, op, rhs in flow.stores(f, i)
+              if lhs is not None and op == "=" and f.exprs[ex.skip(f, lhs)]["k"] == "mem"
+              and f.exprs[ex.skip(f, lhs)]["member"] == "sampling" and rhs is not None and ex.const(f, rhs) is None]
+    calls = [(b, i) for b, i in flow.all_events(f) if f.exprs[i]["k"] == "call" and f.exprs[i].get("callee") == "vbi3_raw_decoder_debug"]
+    if not stores or not calls:
+        raise AnalysisBroken("vbi3_raw_decoder_set_sampling_par: geometry store / debug call not found")
+    for cb, ci in calls:
+        ok = any((sb == cb and pos[si][1] < pos[ci][1]) or (sb != cb and flow.dominates(f, sb, cb)) for sb, si in stores)
+        key = "RF-DEP:vbi3_raw_decoder_set_sampling_par:debug-after-geometry"
+        if ok:
+            run.holds("RF-DEP", key, "the sampling-point array is resized after the new geometry is installed", ex.loc(f, ci))
+        else:
+            run.violation("RF-DEP", key, "`%s` sizes rd->sp_lines before `rd->sampling = *sp`: the array keeps the line count of the "
+                          "old geometry and decoding a larger image in debug mode writes sampling points past it"
+                          % ex.pretty(f, ci)[:50], ex.loc(f, ci))
